@@ -336,9 +336,13 @@ Proof. vm_compute. split; reflexivity. Qed.
 
 (* ------------------------------------------------------------------ reload *)
 
-(** Across a RELOAD.  A session whose router holds the registered settings is judged by
-    the new file, for every statement, as long as no further reload happens; and one
-    forwarded statement (one checkout) is what brings a session up to date. *)
+(** Across a RELOAD (c3cef0c): every statement a connected session sends afterwards is judged
+    by the new file's plugins section - whatever settings the session held before, simple or
+    extended, first statement or later. *)
+Theorem c19_reload_follows_new : forall ops f, rrun f ops = map rnew ops.
+Proof. exact reload_follows_new. Qed.
+Print Assumptions c19_reload_follows_new.
+
 Theorem c19_reload_fresh_follows_new : forall ops,
   forallb (fun o => match o with RReload => false | _ => true end) ops = true -> rrun true ops = map rnew ops.
 Proof. exact no_reload_follows_new. Qed.
@@ -348,13 +352,12 @@ Theorem c19_reload_checkout_refreshes : forall f o f', rstep f o = (f', OFwd) ->
 Proof. exact forwarded_refreshes. Qed.
 Print Assumptions c19_reload_checkout_refreshes.
 
-(** Between the RELOAD and the session's next checkout the OLD file judges (a defect, seen on
-    the wire): an extended batch on a table the new file lists is forwarded; statements the
-    old file denied stay denied although the new file allows them, for as long as the
-    session sends nothing that passes. *)
-Theorem c19_reload_stale_refuted :
-  rrun true [RReload; RBatch Allow (Deny 1); RBatch Allow (Deny 1)] = [ONone; OFwd; ODeny 1] /\
-  rrun true [RReload; RQ (Deny 1) Allow; RBatch (Deny 1) Allow; RQ (Deny 1) Allow] = [ONone; ODeny 1; ODeny 1; ODeny 1] /\
-  rrun true [RReload; RQ Allow (Deny 1)] = [ONone; ODeny 1].
+(** Regression for C19-reload-stale-settings: the old refresh point (only at a checkout) as a
+    mutant.  It forwarded the first extended batch on a table the reload had just listed and
+    kept denying what the new file allows; the model answers by the new file at once. *)
+Example c19_reload_stale_old_refuted :
+  rrun_with rstep_old true [RReload; RBatch Allow (Deny 1); RBatch Allow (Deny 1)] = [ONone; OFwd; ODeny 1] /\
+  rrun true [RReload; RBatch Allow (Deny 1); RBatch Allow (Deny 1)] = [ONone; ODeny 1; ODeny 1] /\
+  rrun_with rstep_old true [RReload; RQ (Deny 1) Allow; RBatch (Deny 1) Allow] = [ONone; ODeny 1; ODeny 1] /\
+  rrun true [RReload; RQ (Deny 1) Allow; RBatch (Deny 1) Allow] = [ONone; OFwd; OFwd].
 Proof. repeat split. Qed.
-Print Assumptions c19_reload_stale_refuted.
